@@ -144,6 +144,21 @@ SAFE_EXT |= {f'builtins.{t}.{m}' for t in ('set', 'frozenset') for m in (
 SAFE_EXT |= {'builtins.set.intersection_update', 'builtins.set.difference_update', 'builtins.set.symmetric_difference_update',
              'builtins.list.count', 'builtins.tuple.count', 'builtins.dict.fromkeys', 'builtins.bytearray.extend', 'builtins.bytearray.append',
              'builtins.bytearray.clear', 'builtins.bytearray.copy'}
+# ordering without a key: total only when the elements are orderable (decided from the static element type, everywhere)
+ORDERING_EXT = {'builtins.sorted', 'builtins.min', 'builtins.max', 'builtins.list.sort'}
+# external calls that raise on malformed input whatever the caller is (charged inside and outside the hardened region): the
+# address parsers of the standard library -- their argument is rdata or text built from rdata
+ALWAYS_RAISING_EXT: Dict[str, List[ExKey]] = {
+    'ipaddress.IPv4Address.__init__': ['ipaddress.AddressValueError'],
+    'ipaddress.IPv6Address.__init__': ['ipaddress.AddressValueError'],
+    'ipaddress.IPv4Address': ['ipaddress.AddressValueError'],
+    'ipaddress.IPv6Address': ['ipaddress.AddressValueError'],
+    'ipaddress.ip_address': ['builtins.ValueError'],
+    'ipaddress.ip_network': ['builtins.ValueError'],
+    'ipaddress.ip_interface': ['builtins.ValueError'],
+    'socket.inet_aton': ['builtins.OSError'],
+    'socket.inet_pton': ['builtins.OSError'],
+}
 RAISING_EXT: Dict[str, List[ExKey]] = {
     'builtins.list.pop': ['builtins.IndexError'],
     'builtins.list.remove': ['builtins.ValueError'],
@@ -525,6 +540,24 @@ class MayRaise:
             return
         self._add_implicit(out, 'builtins.ZeroDivisionError', node)
 
+    def _orderable(self, td: Any) -> bool:
+        """Values of this type can be compared with `<` among themselves without raising (unknown types: assumed so)."""
+        if not td:
+            return True
+        if td[0] == 'tuple':
+            return all(self._orderable(x) for x in td[1])
+        if td[0] == 'inst':
+            full = td[1]
+            if full == 'builtins.tuple':
+                return all(self._orderable(x) for x in td[2])
+            if full.startswith('zeroconf.'):
+                c = self.prog.classes.get(full)
+                return bool(c and c.find_method('__lt__'))
+            return True
+        if td[0] == 'union':
+            return all(self._orderable(x) for x in td[1])
+        return True
+
     def _literal_format(self, e: ast.AST) -> Optional[str]:
         """The text of a format string that is a literal (adjacent / concatenated literals and module constants included)."""
         if isinstance(e, ast.Constant) and isinstance(e.value, str):
@@ -581,6 +614,11 @@ class MayRaise:
             for k, o in callee.items():
                 if k not in out:
                     out[k] = o.via(f'{f.where()}:{n.lineno} -> {t.qual}')
+        for en in s.ext:
+            if en in ORDERING_EXT:
+                self._ordering_call(en, n, out)
+            for k in ALWAYS_RAISING_EXT.get(en, ()):
+                self._add_implicit(out, k, n)
         if not self._hard:
             return
         for en in s.ext:
@@ -593,6 +631,26 @@ class MayRaise:
             if isinstance(x, ast.Await) and x.value is n:
                 return True
         return False
+
+    def _ordering_call(self, en: str, n: ast.Call, out: Dict[ExKey, Origin]) -> None:
+        f = self._f
+        if any(kw.arg == 'key' for kw in n.keywords):
+            return
+        if True:
+            # ordering without a key compares the elements themselves: total for numbers / text / tuples of those; a tuple that
+            # carries an object without an ordering raises TypeError as soon as two tuples tie on what precedes it
+            elems: List[Any] = []
+            if en == 'builtins.list.sort' and isinstance(n.func, ast.Attribute):
+                td = self.ty.type_of(f.module.name, n.func.value)
+                elems = list(td[2][:1]) if td and td[0] == 'inst' and len(td) > 2 else []
+            elif len(n.args) == 1:
+                td = self.ty.type_of(f.module.name, n.args[0])
+                elems = list(td[2][:1]) if td and td[0] == 'inst' and len(td) > 2 and td[2] else []
+            else:
+                elems = [self.ty.type_of(f.module.name, a) for a in n.args]
+            bad = [e_ for e_ in elems if e_ is not None and not self._orderable(e_)]
+            if bad:
+                self._add_implicit(out, 'builtins.TypeError', n)
 
     def _ext_call(self, en: str, n: ast.Call, out: Dict[ExKey, Origin]) -> None:
         f = self._f
@@ -611,6 +669,8 @@ class MayRaise:
             elif mode not in ('replace', 'ignore', 'backslashreplace'):
                 self._add_implicit(out, 'builtins.UnicodeDecodeError', n)
             return
+        if en in ORDERING_EXT or en in ALWAYS_RAISING_EXT:
+            return  # charged in _call, inside and outside the hardened region
         if en in SAFE_EXT:
             return
         if en.endswith('.__init__'):
